@@ -919,10 +919,17 @@ impl Rasn {
                         None => s,
                     }
                 }
+                // A SEQUENCE / SET value is built by the `new` of the struct that the chain of
+                // references ends in: that name is the struct's, not a newtype to wrap the value in.
+                let mut wrappers = supertypes.clone();
+                let struct_name = matches!(**value, ASN1Value::LinkedStructLikeValue(_))
+                    .then(|| wrappers.pop())
+                    .flatten()
+                    .map(|s| self.to_rust_title_case(&s));
                 Ok(nester(
                     self,
-                    self.value_to_tokens(value, type_name)?,
-                    supertypes.clone(),
+                    self.value_to_tokens(value, struct_name.as_ref().or(type_name))?,
+                    wrappers,
                 ))
             }
             ASN1Value::LinkedIntValue {
